@@ -48,8 +48,17 @@ var scenarios = map[string]scenario{}
 
 // RunPlan executes one plan in its own bubble.
 func RunPlan(t *testing.T, p *Plan, wantLog bool) *Record {
-	rec := &Record{Seed: p.Seed, Property: p.Property, Scenario: p.Scenario, Steps: len(p.Steps)}
+	rec := &Record{}
+	RunPlanInto(t, p, wantLog, rec)
+	return rec
+}
+
+// RunPlanInto fills rec; the record is complete even if the test framework aborts the calling
+// subtest afterwards (a -race build fails a test in which the detector reported something).
+func RunPlanInto(t *testing.T, p *Plan, wantLog bool, rec *Record) *Record {
+	*rec = Record{Seed: p.Seed, Property: p.Property, Scenario: p.Scenario, Steps: len(p.Steps)}
 	start := time.Now()
+	defer func() { rec.WallMS = float64(time.Since(start).Microseconds()) / 1000 }()
 	cryptotest.SetGlobalRandom(t, p.Seed)
 	body, ok := scenarios[p.Scenario]
 	if !ok {
